@@ -1294,7 +1294,7 @@ def _whole_file_write(self, rule, fn, descr):
 Run.whole_file_write = _whole_file_write
 
 
-def closure_truth_table(cl, classify, get_pats=("std::collections::hash::map::HashMap::get", "alloc::collections::btree::map::BTreeMap::get"), call_atoms=None):
+def closure_truth_table(cl, classify, get_pats=("std::collections::hash::map::HashMap::get", "alloc::collections::btree::map::BTreeMap::get"), call_atoms=None, result_atoms=None):
     """Evaluate a small loop-free bool closure as a function of atoms.  `classify(body, cmp_site)` names the atom a comparison tests
     (e.g. "K": the keys are equal) or returns None; the result of a map `get` is the atom "S" (Some).  Returns
     ({atom: True/False, ...} as a frozenset of items → returned bool) or None if the closure cannot be interpreted."""
@@ -1305,10 +1305,15 @@ def closure_truth_table(cl, classify, get_pats=("std::collections::hash::map::Ha
         a = classify(cl, c)
         if a is None:
             return None
-        sites[(c["bb"], c["d"])] = (a, c["op"])
+        if isinstance(a, tuple):     # (atom, polarity): the comparison's result IS the atom (polarity True) or its negation
+            sites[(c["bb"], c["d"])] = (a[0], "Eq" if a[1] else "Ne")
+        else:
+            sites[(c["bb"], c["d"])] = (a, c["op"])
     call_atoms = call_atoms or {}
+    result_atoms = result_atoms or {}   # callee pattern -> atom: the call returned Ok (a Result whose discriminant is switched on)
     atoms = sorted({a for a, _ in sites.values()} | ({"S"} if any(b["term"]["k"] == "call" and callee_matches(b["term"], list(get_pats)) for b in cl.blocks) else set())
-                   | {a for pat, a in call_atoms.items() if any(b["term"]["k"] == "call" and callee_matches(b["term"], [pat]) for b in cl.blocks)})
+                   | {a for pat, a in call_atoms.items() if any(b["term"]["k"] == "call" and callee_matches(b["term"], [pat]) for b in cl.blocks)}
+                   | {a for pat, a in result_atoms.items() if any(b["term"]["k"] == "call" and callee_matches(b["term"], [pat]) for b in cl.blocks)})
     if len(atoms) > 4:
         return None
     table = {}
@@ -1337,7 +1342,13 @@ def closure_truth_table(cl, classify, get_pats=("std::collections::hash::map::Ha
                     env[d] = None if v is None else (not v)
                 elif rv["k"] == "discr":
                     v = env.get(("opt", rv["p"][0]))
-                    env[d] = None if v is None else (1 if v else 0)
+                    r_ = env.get(("res", rv["p"][0]))
+                    if v is not None:
+                        env[d] = 1 if v else 0
+                    elif r_ is not None:
+                        env[d] = 0 if r_ else 1     # Result: Ok = 0, Err = 1
+                    else:
+                        env[d] = None
                 else:
                     env[d] = None
             t = blk["term"]
@@ -1355,6 +1366,8 @@ def closure_truth_table(cl, classify, get_pats=("std::collections::hash::map::Ha
                         env[d] = env_atoms[a] if op == "Eq" else (not env_atoms[a])
                     elif callee_matches(t, list(get_pats)):
                         env[("opt", d)] = env_atoms["S"]
+                    elif any(callee_matches(t, [pat]) for pat in result_atoms):
+                        env[("res", d)] = env_atoms[next(a for pat, a in result_atoms.items() if callee_matches(t, [pat]))]
                     elif any(callee_matches(t, [pat]) for pat in call_atoms):
                         env[d] = env_atoms[next(a for pat, a in call_atoms.items() if callee_matches(t, [pat]))]
                     else:
